@@ -29,6 +29,13 @@
 // HTTPS server stops reading the request body and drops the connection) while
 // the child is running; the child writes again and ends in every way the other
 // engines know, and an unsuccessful end must still come back from Go as an error.
+//
+// A sixth engine (input.go) is about the input side: content whose chunks begin
+// and end with byte sequences some layer might treat specially (byte order
+// marks, NUL, ^D, CR/LF, escape sequences, IAC, "~." ...) goes through every
+// kind of reader a caller may give to SetInput, and through the response body
+// of simpleshell.Go, to a cat-like child that must see exactly those bytes and
+// the end of its input exactly when the reader ends.
 package c14
 
 import (
@@ -1204,7 +1211,7 @@ func witness(s *spec, res *result, v verdict, dir string) map[string]any {
 }
 
 func Run(r *mon.Run) {
-	r.Rule = "one case = one generated child program (perl syswrite plan, or sh+dd) run through simpleshell.NewCmdShell with one scripted consumer of Output() and one stdin arrangement; stdout carries a–z and stderr A–Z, byte at offset o = base+(o*7+o/251)%26, so the merged stream is split and each side compared with what the child reports having written; cat-mode cases (every 5th) send PRNG bytes through SetInput and compare the child's stdin log and Output() with them; every 5th pattern case and every 5th cat case ends by a signal to itself (KILL TERM SEGV ABRT HUP USR1 in turn) instead of exit, and Go must then return an error. Engine e2e: the same pattern children run through simpleshell.Go against a harness HTTPS server (HTTP/1.1 and HTTP/2 alternate) whose handler reads the request body on a script (keeps up for a while, then lags, reads nothing from the child's exit until some time after a few lines of late input, then reads the rest), feeds early input the child reads and logs, and ends the response after the request body has ended; the bytes the server read up to the end of the request body, split by alphabet, must be what the child reports having written, the body must end cleanly, and simpleshell.Go must return an error for a non-zero exit or a death by signal. Engine ctx (how the command was built and how it ends): the *exec.Cmd given to NewCmdShell is made by exec.Command, by exec.CommandContext with the default Cancel (Kill), with a Cancel that sends SIGTERM (the child's handler reports and exits 98, or the child ignores it), or with Cancel set back to nil, each with or without a WaitDelay of the caller's own (200 ms to 3 s); stall after the cancellation (0, 0.3, 1.2, 2.5, 6.5 s, and 21.5 s after a command that ended by itself with 40-98 KB pending on one descriptor only; thorough also 1.6, 3.5, 5.5, 11 and 32 s), build and cancellation point go by case index, so every (build, stall) pair occurs at every seed. The consumer first reads an exact number of bytes (0 to 400 000), only then the child goes on (gate file) and writes 0 to 98 304 more bytes per descriptor, reporting after every write; the command's context is cancelled when the child has been seen at the scripted point - blocked in a further 256 KiB write or pausing before its last write (mid-write), lingering after its last write, already exited, or never - and the consumer reads nothing until the stall is over, then drains on a fast, chunked or slow schedule. The input is an io.Pipe left open (empty or with unread data), an *os.File pipe left open, nil, or a reader at EOF. Whatever ended the child (SIGKILL by the context, its SIGTERM handler, the Kill after the caller's WaitDelay, or its own exit), every byte of its last report must have arrived when Output() reports io.EOF; an Output() that ends with an error after a cancellation is counted, not judged, when the caller set a WaitDelay (os/exec then closes the pipes when it expires) and is a violation when the caller set none; without a cancellation it must end with io.EOF; an unsuccessful wait status with a nil return of Go is a violation. Engine leave (the consumer leaves): the consumer of Output() reads an exact number of bytes (0 to 400 000, fast / odd chunks / slow) and then closes the reader - Close at once, Close after a pause of up to 40 ms without reading, Close from a second goroutine while a Read is pending, or CloseWithError when the reader offers it - while the child is running: before its further writes (the child waits at a gate file the harness creates after Close has returned; 1 byte to half a pipe more per descriptor), during paced small writes, while it is blocked in one write of 3 to 6 pipe buffers, after its last write, or (cat child) before the rest of the input arrives, which the child then copies to stdout; 0 to 16 KiB are written and unread at that moment; end (exit 0, non-zero, a signal to itself - the six in turn -, context cancelled with SIGKILL, context cancelled with SIGTERM which the child's handler turns into exit 98) and moment go by case index so that every pair occurs in any 64 consecutive cases (a child blocked in a write is always ended by its context, the cat child never); the input is nil, an io.Pipe left open (empty or with unread data), an *os.File pipe left open, a reader at EOF, scripted data the child reads to its end before it ends, or the cat child's data in two parts; verdicts: the wait status exec.Cmd recorded is unsuccessful and Go returned nil = violation (same keys as in the other engines), the bytes delivered before the consumer left are not a correct per-descriptor prefix (cat: a prefix of the input) = violation; with a successful exit either return value is accepted and counted (go_error_on_clean_exit). Engine leave-e2e: the same through simpleshell.Go against the harness HTTPS server (HTTP/1.1 and HTTP/2 alternate): the handler reads an exact number of bytes of the request body (0 to 400 000) and goes away while the child waits at the gate - closes the TLS connection, resets the TCP connection, panics with http.ErrAbortHandler, or returns; the child writes a first part, the harness waits (2 s at most) until net/http has closed the reader it got from Output() (seen through a Shell that embeds the CmdShell and records Close), the child writes a second part and ends (exit 0, non-zero, signal to itself, context cancelled); an unsuccessful wait status with a nil return of simpleshell.Go is a violation. distinct_nontrivial = distinct (mode, flavor, sizes, write sizes, interleaving, exit status/mode, stdin arrangement, consumer schedule) signatures among cases that move at least one byte"
+	r.Rule = "one case = one generated child program (perl syswrite plan, or sh+dd) run through simpleshell.NewCmdShell with one scripted consumer of Output() and one stdin arrangement; stdout carries a–z and stderr A–Z, byte at offset o = base+(o*7+o/251)%26, so the merged stream is split and each side compared with what the child reports having written; cat-mode cases (every 5th) send PRNG bytes through SetInput and compare the child's stdin log and Output() with them; every 5th pattern case and every 5th cat case ends by a signal to itself (KILL TERM SEGV ABRT HUP USR1 in turn) instead of exit, and Go must then return an error. Engine e2e: the same pattern children run through simpleshell.Go against a harness HTTPS server (HTTP/1.1 and HTTP/2 alternate) whose handler reads the request body on a script (keeps up for a while, then lags, reads nothing from the child's exit until some time after a few lines of late input, then reads the rest), feeds early input the child reads and logs, and ends the response after the request body has ended; the bytes the server read up to the end of the request body, split by alphabet, must be what the child reports having written, the body must end cleanly, and simpleshell.Go must return an error for a non-zero exit or a death by signal. Engine ctx (how the command was built and how it ends): the *exec.Cmd given to NewCmdShell is made by exec.Command, by exec.CommandContext with the default Cancel (Kill), with a Cancel that sends SIGTERM (the child's handler reports and exits 98, or the child ignores it), or with Cancel set back to nil, each with or without a WaitDelay of the caller's own (200 ms to 3 s); stall after the cancellation (0, 0.3, 1.2, 2.5, 6.5 s, and 21.5 s after a command that ended by itself with 40-98 KB pending on one descriptor only; thorough also 1.6, 3.5, 5.5, 11 and 32 s), build and cancellation point go by case index, so every (build, stall) pair occurs at every seed. The consumer first reads an exact number of bytes (0 to 400 000), only then the child goes on (gate file) and writes 0 to 98 304 more bytes per descriptor, reporting after every write; the command's context is cancelled when the child has been seen at the scripted point - blocked in a further 256 KiB write or pausing before its last write (mid-write), lingering after its last write, already exited, or never - and the consumer reads nothing until the stall is over, then drains on a fast, chunked or slow schedule. The input is an io.Pipe left open (empty or with unread data), an *os.File pipe left open, nil, or a reader at EOF. Whatever ended the child (SIGKILL by the context, its SIGTERM handler, the Kill after the caller's WaitDelay, or its own exit), every byte of its last report must have arrived when Output() reports io.EOF; an Output() that ends with an error after a cancellation is counted, not judged, when the caller set a WaitDelay (os/exec then closes the pipes when it expires) and is a violation when the caller set none; without a cancellation it must end with io.EOF; an unsuccessful wait status with a nil return of Go is a violation. Engine leave (the consumer leaves): the consumer of Output() reads an exact number of bytes (0 to 400 000, fast / odd chunks / slow) and then closes the reader - Close at once, Close after a pause of up to 40 ms without reading, Close from a second goroutine while a Read is pending, or CloseWithError when the reader offers it - while the child is running: before its further writes (the child waits at a gate file the harness creates after Close has returned; 1 byte to half a pipe more per descriptor), during paced small writes, while it is blocked in one write of 3 to 6 pipe buffers, after its last write, or (cat child) before the rest of the input arrives, which the child then copies to stdout; 0 to 16 KiB are written and unread at that moment; end (exit 0, non-zero, a signal to itself - the six in turn -, context cancelled with SIGKILL, context cancelled with SIGTERM which the child's handler turns into exit 98) and moment go by case index so that every pair occurs in any 64 consecutive cases (a child blocked in a write is always ended by its context, the cat child never); the input is nil, an io.Pipe left open (empty or with unread data), an *os.File pipe left open, a reader at EOF, scripted data the child reads to its end before it ends, or the cat child's data in two parts; verdicts: the wait status exec.Cmd recorded is unsuccessful and Go returned nil = violation (same keys as in the other engines), the bytes delivered before the consumer left are not a correct per-descriptor prefix (cat: a prefix of the input) = violation; with a successful exit either return value is accepted and counted (go_error_on_clean_exit). Engine leave-e2e: the same through simpleshell.Go against the harness HTTPS server (HTTP/1.1 and HTTP/2 alternate): the handler reads an exact number of bytes of the request body (0 to 400 000) and goes away while the child waits at the gate - closes the TLS connection, resets the TCP connection, panics with http.ErrAbortHandler, or returns; the child writes a first part, the harness waits (2 s at most) until net/http has closed the reader it got from Output() (seen through a Shell that embeds the CmdShell and records Close), the child writes a second part and ends (exit 0, non-zero, signal to itself, context cancelled); an unsuccessful wait status with a nil return of simpleshell.Go is a violation. Engine input (fidelity of the input side under chunking; runs beside engine ctx): a cat-like child (a perl program that logs every byte of its stdin with syswrite and echoes it, /bin/cat, or a perl byte counter with a SHA-256) run through NewCmdShell gets its input through every kind of reader a caller may give to SetInput - a reader whose every Read returns one scripted chunk, io.Pipe and net.Pipe (one Write per chunk), a unix stream socket and an *os.File pipe (one write per chunk, each handed over only when the child has logged everything before it), io.MultiReader over one bytes.Reader per chunk, bytes.Reader, bufio.Reader, a regular file - and, through simpleshell.Go, through the body of an HTTPS response (HTTP/1.1 and HTTP/2: one Write+Flush per chunk, handed over when the child has logged everything before it; the child reads exactly the data and the server appends 4096 bytes of padding, so that lost bytes show as wrong bytes instead of a child that waits). The content of a case is a list of chunks; five of them begin with a byte sequence picked by case index from a list of 61 (UTF-8/16/32/7/GB18030 byte order marks and parts of one, NUL, ^D, ^Z, ^C, ^\\, ^U, XON/XOFF, DEL, BS, CR, LF, CRLF and friends, ESC and escape sequences incl. bracketed paste, C1 CSI, 0xFF, telnet IAC sequences, '~.' escapes, '+++', invalid and odd UTF-8, a chunked-encoding terminator, an HTTP status line, 'EOF', 'exit'), end with another one, consist of nothing else, or carry it twice; between them one sequence split across two chunks (CR|LF, the BOM 1|2 and 2|1, ESC sequences, IAC, '~'|'.', a euro sign, FF|FE, NUL|NUL), a lone NUL chunk, lone CR then lone LF chunks, zero-length reads (scripted reader, io.Pipe, net.Pipe) and filler chunks of up to 32 KiB of PRNG bytes or text; kind of reader and sequences go by index so that at every seed every sequence leads a read of every kind of reader (for bytes.Reader, bufio.Reader and the regular file: leads the stream). Verdicts: the child's stdin log (or what /bin/cat sent back on Output(), or the counter's n and SHA-256) is not exactly the bytes sent, in order = violation (stdin-corrupt:input, echo-differs-from-input:input, stdin-digest-differs:input); the child saw the end of its input with bytes missing = stdin-truncated:input; the reader is kept open 10 or 40 ms after the child has logged the last byte and the child must not have reported end of input by then (stdin-eof-before-end-of-input:input); the child (which ends at the end of its input) must end and Output() report io.EOF within 30 s, re-run alone with 60 s, else output-stream-does-not-end:input; Output() must equal what the child echoed and end with io.EOF. distinct_nontrivial = distinct (mode, flavor, sizes, write sizes, interleaving, exit status/mode, stdin arrangement, consumer schedule) signatures among cases that move at least one byte"
 	r.Assumptions = []string{
 		"the child's own account (report file written through rename, exit status 97/98 on a failed or interrupted write) is the ground truth of what it wrote",
 		"child exit is observed through /proc/<pid>/stat (zombie or gone)",
@@ -1219,13 +1226,19 @@ func Run(r *mon.Run) {
 		"leave / leave-e2e: once the consumer has left nobody drains the child's pipes, so a child that fills one never ends by itself and the property promises nothing about it: what a child that is to end by itself writes after the consumer has left stays within half a pipe per descriptor (a quarter when output was unread at that moment), and only a child that its context ends is put into a write of several pipe buffers",
 		"leave / leave-e2e: that the consumer left while the child was running, that the child wrote again afterwards (its report after every write, compared with the report read just before the Close; cat child: bytes written against the size of its stdin log at that moment) and how it ended (wait status) are measured, not assumed: floors on leave_unsuccessful_exit_after_further_writes_cases and leave_e2e_unsuccessful_exit_after_writes_on_closed_output_cases; the waits for the child's report, for its exit (30 s per case) and for net/http's Close (2 s) decide only what is exercised; a Go that has not returned 30 s after the start although the child has exited and an input left open was closed is inconclusive (and below the floor leave_go_returned_cases), never a violation: the property does not say when Go returns for a consumer that has gone",
 		"leave-e2e: wrapping the CmdShell in another Shell only replaces the reader net/http gets by one that forwards Read and Close and records the Close; the server flushes the response header before it reads, so simpleshell.Go has started the command before the server goes away; an HTTP/1.1 server that returns from or aborts its handler keeps draining the request body for a while, so net/http may not close Output()'s reader in those cases (counted as leave_e2e_output_not_seen_closed_within_2s_cases)",
+		"input: the child's stdin log (syswrite per read, so its size is what the child has seen so far) and its report file (written only once read() returned 0) are the ground truth of what reached its stdin and of when it saw the end; a hand-over waits at most 2 s for the log to reach what was sent (after one expired wait the case stops waiting) and only decides what counts as exercised: a chunk of a socket, *os.File pipe or response body counts as leading a read only when the child had logged everything before it; for bytes.Reader, io.MultiReader and the regular file nothing of the harness stands between the reader and os/exec, so the chunks count once the case has ended; the HTTP kinds end the response only when the request body has ended",
 		"e2e: child exit is observed through /proc before the late input is sent; what the server read is compared only once the request body has reported its end (30 s bound, then the same re-run rule)",
 	}
 	// SEGV and ABRT deaths must not leave core files behind
 	syscall.Setrlimit(syscall.RLIMIT_CORE, &syscall.Rlimit{Cur: 0, Max: 0})
 	runCaseEngine(r)
 	runE2EEngine(r)
+	// the input engine is short and busy, the ctx engine long and mostly asleep
+	// (its stalls): they run side by side
+	inputDone := make(chan struct{})
+	go func() { defer close(inputDone); runInputEngine(r) }()
 	runCtxEngine(r)
+	<-inputDone
 	runLeaveEngine(r)
 	runLeaveE2EEngine(r)
 	// no process of ours may be left behind
